@@ -799,7 +799,9 @@ def fixture_worlds(rng, tier):
             # one Operator object applied twice in a row (forced), for the first call probed in this state (small domains
             # only: the states of the others have ~1000 facts)
             seqs = []
-            if mine and not job["big"]:
+            # (the large domains - ~1000 facts per state, comparing two states inside Coq is quadratic - get such a chain in the
+            # thorough tier only, from the first state of the walk)
+            if mine and (not job["big"] or (tier == "thorough" and si == 0)):
                 p0 = mine[0]
                 seqs.append({"action": p0["action"], "args": p0["args"], "start": 0, "perm": None, "uperm": None, "inner_seed": 0,
                              "kind": "chain", "steps": [{"src": None, "allow": True}, {"src": None, "allow": True}], "shape": {}})
@@ -864,7 +866,7 @@ def generate(rng, tier):
     # of every kind of world that has quantifiers in its effects; three objects and three states, so that objects other than the
     # call's argument satisfy (and fail) the quantified conditions
     k, tries = 0, 0
-    while k < max(8, n // 4) and tries < 40 * n:
+    while k < max(8, n // 5) and tries < 40 * n:
         tries += 1
         w = G.gen_world(rng, max_actions=2)
         base = k % 4
@@ -883,14 +885,14 @@ def generate(rng, tier):
             continue
         if not any(shadows(a) for a in w.actions):
             continue
-        worlds.append(build_world(rng, w, tier, n_states=3, calls_per_action=3, stream="shadow", seq_only=seq_only,
-                                  objs=G.gen_objects(rng, w, n=rng.choice([3, 3, 4]))))
+        worlds.append(build_world(rng, w, tier, n_states=2 if tier == "quick" else 3, calls_per_action=3, stream="shadow",
+                                  seq_only=seq_only, objs=G.gen_objects(rng, w, n=rng.choice([3, 3, 4]))))
         k += 1
     # BOUNDARY OBJECT TABLES: a problem without objects, with and without constants of the quantified type; a quantified type that
     # nothing inhabits; an Operator built without an object table (problem_objects=None, as against the empty table)
     for mode in TABLES:
         k, tries = 0, 0
-        while k < max(3, n // 8) and tries < 40 * n:
+        while k < max(3, n // 12) and tries < 40 * n:
             tries += 1
             w = G.gen_world(rng, max_actions=2)
             seq_only = None
@@ -926,7 +928,7 @@ def generate(rng, tier):
                 [it(["when", ["p", "?x"], ["not", ["p", "?x"]]]), it(["when", ["not", ["q"]], ["q"]])]]
         sh = xs_shadow_items()
         core += [[sh[0], it(["q"])], [sh[5], it(["decrease", ["f", "?x"], ["h"]])], [sh[9]], [sh[2], sh[11]]]
-        bodies = core + rng.sample(xs_bodies(), 16) + rng.sample(xs_shadow_bodies(), 2)
+        bodies = core + rng.sample(xs_bodies(), 12) + rng.sample(xs_shadow_bodies(), 2)
     for b in bodies:
         worlds.append(xs_world(rng, b, tier))
     return worlds, (tier == "thorough")
@@ -941,9 +943,23 @@ def run_worlds(worlds, hashseed):
     return run_impl(jobs, hashseed=hashseed)
 
 
+def _lap(label, t=[None]):
+    """phase timing on stderr when VERIF_TIMING is set (diagnostics only)"""
+    import os
+    import sys
+    import time
+    if os.environ.get("VERIF_TIMING"):
+        now = time.time()
+        if t[0] is not None:
+            sys.stderr.write("[C03 timing] %-28s %.1f s\n" % (label, now - t[0]))
+        t[0] = now
+
+
 def run(args):
+    _lap("start")
     rep = Report(PROP, args.tier, args.seed)
     standard_proof_part(rep, PROP)
+    _lap("proof part")
     rng = random.Random(args.seed * 104729 + 3)
     exhaustive = False
     if args.replay:
@@ -951,6 +967,7 @@ def run(args):
         worlds = [data["input"]["world"]]
     else:
         worlds, exhaustive = generate(rng, args.tier)
+    _lap("generate (+fixture walk)")
     cfg = run_impl([{"op": "c03.numeric_config"}], nproc=1)[0]
     hashseeds = [0] if args.tier == "quick" else [0, 1, 2, 3]
     all_cases, verdict_list, skipped_ok = [], [], 0
@@ -986,6 +1003,7 @@ def run(args):
         for b0 in range(0, len(all_worlds), BATCH):
             worlds = all_worlds[b0:b0 + BATCH]
             results = run_worlds(worlds, hs)
+            _lap("implementation batch")
             # a probe whose (re-rendered) problem text the library refuses to read is void: it says nothing about apply
             for wd, res in zip(worlds, results):
                 if "probes" in res and any("problem_raised" in r for r in res["probes"]):
@@ -1017,6 +1035,7 @@ def run(args):
             both, info = run_case_shards(PROP, "Corr.C03", lits, shard_size=8, units=[2 * u for u in units], header_extra=HEADER,
                                          max_bytes=110_000, run_fn="Corr.C03.run2")
             verdicts, tags = both[0::2], both[1::2]
+            _lap("coq shards (%d)" % info["shards"])
             if hs == hashseeds[0]:
                 for t in tags:
                     stats["judged_how"][TAGS.get(t, t)] = stats["judged_how"].get(TAGS.get(t, t), 0) + 1
@@ -1186,6 +1205,7 @@ def run(args):
     all_cases = [all_cases[i] for i in ranked]
     verdict_list = [verdict_list[i] for i in ranked]
     all_verdicts = "".join(verdict_list)
+    _lap("bookkeeping")
     decide(rep, PROP, "Corr.C03", all_cases, all_verdicts, info_total, explain_expr="explain_all (%s)", header_extra=HEADER,
            max_replays=5)
     cov = rep.coverage
@@ -1229,4 +1249,5 @@ def run(args):
                        "states define every fluent",
                        "effects consistent for the successor oracle (inconsistent probes: frame/membership oracle + exact agreement with the model in the observed visiting order)",
                        "a sequence re-uses ONE Operator object; states handed to it are the objects it returned or fresh copies"]
+    _lap("decide + evidence")
     return rep.finish()
